@@ -6,6 +6,7 @@
 From Coq Require Import QArith Qminmax List Bool Arith.
 From WSI Require Import Vqip Pow Tank Arc QTank Run TankLaws ArcLaws QTankLaws QueueLaws Refuted.
 From WSI Require Net NetLaws.
+From WSI Require Import Distrib Kinds TimeArea DistribLaws DecayQTank SewerLaws.
 Import ListNotations.
 Open Scope Q_scope.
 
@@ -83,3 +84,29 @@ Theorem C04_network_request_moves_what_it_reports : forall maxiter fuel s r s' r
   forall n, NetLaws.interior s n -> NetLaws.balance s' n == NetLaws.balance s n + NetLaws.effect s r rep n.
 Proof. exact NetLaws.ledger_exec. Qed.
 Print Assumptions C04_network_request_moves_what_it_reports.
+
+(* ---- a node class with a queue tank: the Sewer (coq/TimeArea.v) ----
+   Sewer.make_discharge (release what is due, push what has arrived to every neighbour, take out of the tank what was
+   not handed back, flood what stands above the capacity to Land and take back what Land refuses) against ANY
+   neighbours meeting the reply contract: what the sewer's tank declares less afterwards is exactly what its out-arcs
+   record as carried more, for volume and every additive pollutant - up to `dust`, the water above capacity that is
+   taken out and dropped when it is no more than FLOAT_ACCURACY (non-negative, at most eps, zero when the sewer floods) -
+   and the tank still declares what it holds. *)
+Theorem C04_sewer_discharge_moves_what_its_arcs_record : forall S (P : port S) (K : contract S P),
+  (forall s v, okS S P K s -> wet v -> forall k, vol (snd (p_push_set P s v)) <= 0 -> get (adds (snd (p_push_set P s v))) k == 0) ->
+  forall maxiter (n n' : qnode S),
+  star_ok S P K (qn_outs S n) -> qledger (qn_t S n) ->
+  wet (vsum (s_act (qt_s (qn_t S n))) (bget (l_b (qt_l (qn_t S n))) 0)) ->
+  sw_make_discharge S P maxiter n = Some n' ->
+  star_ok S P K (qn_outs S n') /\ qledger (qn_t S n') /\
+  exists dust, 0 <= vol dust <= eps /\ (forall c, conserved c -> 0 <= cmp c dust) /\
+    forall c, conserved c ->
+      cmp c (s_sto (qt_s (qn_t S n))) - cmp c (s_sto (qt_s (qn_t S n'))) ==
+      (sumvin S c (qn_outs S n') - sumvin S c (qn_outs S n)) + cmp c dust.
+Proof. exact sw_discharge_books. Qed.
+Print Assumptions C04_sewer_discharge_moves_what_its_arcs_record.
+Example C04_tank_backed_neighbours_meet_the_hypothesis :
+  forall s v, okS _ _ tank_contract s -> wet v -> forall k,
+    vol (snd (p_push_set nbport s v)) <= 0 -> get (adds (snd (p_push_set nbport s v))) k == 0.
+Proof. exact tank_wet_replies. Qed.
+Print Assumptions C04_tank_backed_neighbours_meet_the_hypothesis.
